@@ -13,6 +13,9 @@ import (
 )
 
 // parallelFor runs fn(i) for i in [0,n) on all cores; chunks are handed out dynamically.
+// Beats counts items handed to workers by parallelFor (a liveness signal for a watchdog).
+var Beats int64
+
 func parallelFor(n int, fn func(i int)) {
 	w := runtime.GOMAXPROCS(0)
 	if w > n {
@@ -43,6 +46,7 @@ func parallelFor(n int, fn func(i int)) {
 				if i >= n {
 					return
 				}
+				atomic.AddInt64(&Beats, 1)
 				fn(i)
 			}
 		}()
